@@ -26,7 +26,8 @@ def main():
         if pid in NA:
             na.append({"property_id": pid, "reason": NA[pid]})
             continue
-        if not os.path.exists(path):
+        ready = set(open(os.path.join(ROOT, "contracts", "READY")).read().split())
+        if not os.path.exists(path) or pid not in ready:
             na.append({"property_id": pid, "reason": PENDING})
             continue
         mod = importlib.import_module("contracts." + pid.lower())
